@@ -256,8 +256,9 @@ def build_sysloss(rec):
 
     dyn = {e["name"]: mk_eq(e["R"]) for e in rec["eqs"]}
     scalar = rec["wform"] == "scalar"
-    wdyn = float(rec["eqs"][0]["w"]) if scalar else {e["name"]: float(e["w"]) for e in rec["eqs"]}
-    wu = lambda f: float(rec["wu"][0][f]) if scalar else {n: float(w[f]) for n, w in zip(names, rec["wu"])}
+    rev = (lambda items: list(items)[::-1]) if rec.get("wrev") else (lambda items: list(items))
+    wdyn = float(rec["eqs"][0]["w"]) if scalar else {e["name"]: float(e["w"]) for e in rev(rec["eqs"])}
+    wu = lambda f: float(rec["wu"][0][f]) if scalar else {n: float(w[f]) for n, w in rev(zip(names, rec["wu"]))}
     kw = {}
     if lkind == "ode":
         lw = jinns.loss.LossWeightsODEDict(dyn_loss=wdyn, initial_condition=wu("ic"), observations=wu("obs"))
@@ -448,3 +449,261 @@ def run_gradbatch(task):
 
 
 RUNNERS["gradbatch"] = run_gradbatch
+
+
+# ---------------------------------------------------------------------------------- C02 equations
+def run_equation(rec):
+    import jax
+    import jax.numpy as jnp
+    import jinns
+    from jinns.loss import (BurgerEquation, FisherKPP, GeneralizedLotkaVolterra, MassConservation2DStatio, NavierStokes2DStatio,
+                            OU_FPENonStatioLoss2D)
+
+    qf = lambda q: q["n"] / q["d"]
+    eq, T, par = rec["eq"], float(rec["Tmax"]), rec["par"]
+    out = dict(rec)
+    try:
+        pts = jnp.asarray(np.array(rec["pts"], dtype=np.float64))
+        if eq in ("burgers", "fisher", "ou"):
+            u = make_pinn(rec["U"], "nonstatio_PDE")
+            if eq == "burgers":
+                dl = BurgerEquation(Tmax=T)
+                ep = {"nu": jnp.array(qf(par["nu"]))}
+            elif eq == "fisher":
+                dl = FisherKPP(Tmax=T)
+                ep = {"D": jnp.array(qf(par["D"])), "r": jnp.array(qf(par["r"])), "g": jnp.array(qf(par["g"]))}
+            else:
+                dl = OU_FPENonStatioLoss2D(Tmax=T)
+                ep = {k: jnp.array([qf(v) for v in par[k]]) for k in ("alpha", "mu", "sigma")}
+            params = jinns.parameters.Params(nn_params=u.init_params(), eq_params=ep)
+            vals = jax.vmap(lambda p: jnp.ravel(dl.evaluate(p[:1], p[1:], u, params)))(pts)
+        elif eq == "masscons":
+            u = make_pinn(rec["U"], "statio_PDE")
+            other = make_pinn([rec["U"][1], rec["U"][0]], "statio_PDE")
+            ud = {"u": u} if rec["layout"] == "single" else {"a": other, "u": u}
+            pd = jinns.parameters.ParamsDict(nn_params={k: v.init_params() for k, v in ud.items()}, eq_params={})
+            dl = MassConservation2DStatio(Tmax=T, nn_key="u")
+            vals = jax.vmap(lambda p: jnp.ravel(dl.evaluate(p, ud, pd)))(pts)
+        elif eq == "ns":
+            u = make_pinn(rec["U"], "statio_PDE")
+            p = make_pinn([rec["P"]], "statio_PDE")
+            if rec["layout"] == "u_first":
+                ud, uk, pk = {"u": u, "p": p}, "u", "p"
+            else:
+                ud, uk, pk = {"a_p": p, "b_u": u}, "b_u", "a_p"
+            pd = jinns.parameters.ParamsDict(nn_params={k: v.init_params() for k, v in ud.items()},
+                                             eq_params={"rho": jnp.array(qf(par["rho"])), "nu": jnp.array(qf(par["nu"]))})
+            dl = NavierStokes2DStatio(Tmax=T, u_key=uk, p_key=pk)
+            vals = jax.vmap(lambda q: jnp.ravel(dl.evaluate(q, ud, pd)))(pts)
+        else:  # glv; rec.U = [main, others in keys_other order]
+            lay = rec["layout"]
+            names = {"flat_main1": ["s1", "s2", "s3"], "flat_main2": ["s2", "s3", "s1"], "nested_main1": ["s1", "s2", "s3"],
+                     "nested_main3": ["s3", "s1", "s2"]}[lay]
+            nets = {n: make_pinn([U], "ODE") for n, U in zip(names, rec["U"])}
+            ud = {k: nets[k] for k in sorted(nets)}            # dict order independent of the roles
+            own = {"growth_rate": jnp.array(qf(par["growth"])), "carrying_capacity": jnp.array(qf(par["carry"])),
+                   "interactions": jnp.array([qf(v) for v in par["inter"]])}
+            if lay.startswith("flat"):
+                ep = own
+            else:
+                d1, d2 = rec["distract"]
+                ep = {names[0]: own,
+                      names[1]: {"growth_rate": jnp.array(float(d1)), "carrying_capacity": jnp.array(float(d2)), "interactions": jnp.array([1.0, 5.0, 9.0])},
+                      names[2]: {"growth_rate": jnp.array(float(d2)), "carrying_capacity": jnp.array(float(d1)), "interactions": jnp.array([7.0, 3.0, 1.0])}}
+            pd = jinns.parameters.ParamsDict(nn_params={k: v.init_params() for k, v in ud.items()}, eq_params=ep)
+            dl = GeneralizedLotkaVolterra(Tmax=T, key_main=names[0], keys_other=names[1:])
+            vals = jax.vmap(lambda q: jnp.ravel(dl.evaluate(q, ud, pd)))(pts)
+        out["obs"] = [fracs(v) for v in np.asarray(vals)]
+        out["exc"] = ""
+    except Exception as ex:  # noqa
+        out["obs"] = []
+        out["exc"] = f"{type(ex).__name__}: {str(ex)[:200]}"
+    return out
+
+
+RUNNERS["equation"] = run_equation
+
+
+# ---------------------------------------------------------------------------------- C10 wrappers
+def _set_linear_ints(params, layers_vals):
+    """overwrite, in leaf order (weight, bias per Linear layer), the array leaves of a partitioned MLP"""
+    import jax
+    import jax.numpy as jnp
+
+    leaves, treedef = jax.tree_util.tree_flatten(params)
+    vals = []
+    for L in layers_vals:
+        vals += [jnp.asarray(np.array(L["W"], dtype=np.float64)), jnp.asarray(np.array(L["b"], dtype=np.float64))]
+    if len(vals) != len(leaves) or any(tuple(v.shape) != tuple(l.shape) for v, l in zip(vals, leaves)):
+        raise RuntimeError(f"unexpected parameter structure: {[l.shape for l in leaves]} vs {[v.shape for v in vals]}")
+    return jax.tree_util.tree_unflatten(treedef, vals)
+
+
+def run_net(rec):
+    import equinox as eqx
+    import jax
+    import jax.numpy as jnp
+    import jinns
+
+    out = dict(rec)
+    acts = {"id": (lambda z: z), "sq": jnp.square}
+    try:
+        if rec["wrapper"] in ("pinn", "hyper"):
+            nin, nout = rec["nin"], rec["nout"]
+            if rec["depth"] == 1:
+                eqx_list = ((eqx.nn.Linear, nin, nout),)
+            else:
+                eqx_list = ((eqx.nn.Linear, nin, 2), (acts[rec["act"]],), (eqx.nn.Linear, 2, nout))
+            it = (lambda i, p: i + p.eq_params["k1"]) if rec["it"] == "shift" else None
+            ot = (lambda i, o, p: o * p.eq_params["k2"] + i[0] + jnp.sum(o)) if rec["ot"] == "scale" else None
+            shared = None
+            if rec["shared"] != "none":
+                shared = (jnp.s_[0:1], jnp.s_[1:nout])
+            dim_x = 0 if rec["eq_type"] == "ODE" else rec["struct"]["dimx"]
+            eqp = {"k1": jnp.array(float(rec["th"][0])), "k2": jnp.array(float(rec["th"][1]))}
+            if rec["wrapper"] == "pinn":
+                u = jinns.utils.create_PINN(jax.random.PRNGKey(0), eqx_list, rec["eq_type"], dim_x, input_transform=it, output_transform=ot,
+                                            shared_pinn_outputs=shared)
+                if shared is not None:
+                    u = u[0] if rec["shared"] == "first" else u[1]
+                nn = _set_linear_ints(u.init_params(), rec["layers"])
+            else:
+                eqp.update(k3=jnp.array(float(rec["hth"][0])), k4=jnp.array(float(rec["hth"][1])))
+                P = len(rec["hyper"][0]["b"])
+                u = jinns.utils.create_HYPERPINN(jax.random.PRNGKey(0), eqx_list, rec["eq_type"], ["k3", "k4"], 2, dim_x, input_transform=it,
+                                                 output_transform=ot, shared_pinn_outputs=shared, eqx_list_hyper=((eqx.nn.Linear, 2, P),))
+                if shared is not None:
+                    u = u[0]
+                nn = _set_linear_ints(u.init_params(), rec["hyper"])
+            full = jinns.parameters.Params(nn_params=nn, eq_params=eqp)
+            p = nn if rec["pform"] == "bare" else full
+            obs, shapes = [], []
+            for row in rec["ins"]:
+                a = jnp.asarray(np.array(row, dtype=np.float64))
+                if rec["eq_type"] == "ODE":
+                    t = a[0] if rec["tform"] == "scalar" else a[:1]
+                    v = u(t, p)
+                elif rec["eq_type"] == "statio_PDE":
+                    v = u(a, p)
+                else:
+                    v = u(a[:1], a[1:], p)
+                shapes.append(list(np.asarray(v).shape))
+                obs.append(fracs(v))
+            out.update(obs=obs, oshapes=shapes, exc="")
+        else:
+            d, R, M, b = rec["d"], rec["R"], rec["M"], rec["b"]
+            if rec["depth"] == 1:
+                eqx_list = ((eqx.nn.Linear, 1, R * M),)
+            else:
+                eqx_list = ((eqx.nn.Linear, 1, 2), (acts[rec["act"]],), (eqx.nn.Linear, 2, R * M))
+            u = jinns.utils.create_SPINN(jax.random.PRNGKey(0), d, R, eqx_list, rec["eq_type"], M)
+            params = u.init_params()
+            new_mlps = []
+            for dd in range(d):
+                vals = iter(rec["mlps"][dd])
+                layer_list = []
+                for layer in params.separated_mlp[dd]:
+                    if hasattr(layer, "weight") and layer is not None and getattr(layer, "weight", None) is not None:
+                        L = next(vals)
+                        layer = eqx.tree_at(lambda l: (l.weight, l.bias), layer,
+                                            (jnp.asarray(np.array(L["W"], dtype=np.float64)), jnp.asarray(np.array(L["b"], dtype=np.float64))))
+                    layer_list.append(layer)
+                new_mlps.append(layer_list)
+            params = eqx.tree_at(lambda q: q.separated_mlp, params, new_mlps)
+            full = jinns.parameters.Params(nn_params=params, eq_params={})
+            p = params if rec["pform"] == "bare" else full
+            X = jnp.asarray(np.array(rec["xs"], dtype=np.float64).T)      # (b, d)
+            if rec["eq_type"] == "statio_PDE":
+                v = u(X, p)
+            else:
+                v = u(X[:, :1], X[:, 1:], p)
+            v = np.asarray(v)
+            out.update(obs=[fracs(row) for row in v.reshape(-1, v.shape[-1])] if v.ndim == d + 1 else [], oshapes=[list(v.shape)], exc="")
+    except Exception as ex:  # noqa
+        out.update(obs=[], oshapes=[], exc=f"{type(ex).__name__}: {str(ex)[:200]}")
+    return out
+
+
+RUNNERS["net"] = run_net
+
+
+# ---------------------------------------------------------------------------------- C11 forward vs reverse
+def make_poly_spinn(coef, d, R, M, eq_type):
+    import equinox as eqx
+    import jax
+    import jax.numpy as jnp
+    import jinns
+
+    tables = iter([jnp.asarray(np.array(c, dtype=np.float64)) for c in coef])
+
+    class PolyFeat(eqx.Module):
+        """1 -> R*M polynomial feature map: f_j(x) = sum_p C[j, p] x^p"""
+        C: jax.Array
+
+        def __init__(self, in_size, out_size, key=None):
+            self.C = next(tables)
+
+        def __call__(self, x):
+            pows = jnp.stack([x[0] ** p if p else jnp.ones(()) for p in range(self.C.shape[1])])
+            return self.C @ pows
+
+    return jinns.utils.create_SPINN(jax.random.PRNGKey(0), d, R, ((PolyFeat, 1, R * M),), eq_type, M)
+
+
+def run_fwdrev(rec):
+    import jax
+    import jax.numpy as jnp
+    import jinns
+    from jinns.loss import BurgerEquation, FisherKPP, MassConservation2DStatio
+    from jinns.loss import _operators as ops
+
+    out = dict(rec)
+    qf = lambda q: q["n"] / q["d"]
+    try:
+        d, R, M, withT, op = rec["d"], rec["R"], rec["M"], rec["withT"], rec["op"]
+        eq_type = "nonstatio_PDE" if withT else "statio_PDE"
+        sp = make_poly_spinn(rec["coef"], d, R, M, eq_type)
+        pi = make_pinn(rec["twin"], eq_type)
+        ep = {k: jnp.array(qf(v)) for k, v in rec["par"].items()}
+        psp = jinns.parameters.Params(nn_params=sp.init_params(), eq_params=ep)
+        ppi = jinns.parameters.Params(nn_params=pi.init_params(), eq_params=ep)
+        X = jnp.asarray(np.array(rec["xs"], dtype=np.float64).T)           # (b, d)
+        t, x = (X[:, :1], X[:, 1:]) if withT else (None, X)
+        grid_pts = np.array([[rec["xs"][dd][i - 1] for dd, i in enumerate(idx)] for idx in rec["idxs"]], dtype=np.float64)
+
+        def point(f):                                                     # reverse mode, point by point
+            def g(p):
+                return jnp.ravel(f(p[:1], p[1:]) if withT else f(None, p))
+            return np.asarray(jax.vmap(g)(jnp.asarray(grid_pts)))
+
+        nidx = len(rec["idxs"])
+        if op == "lap":
+            fwd = np.asarray(ops._laplacian_fwd(t, x, sp, psp)).reshape(nidx, 1)
+            rev = point(lambda tt, xx: ops._laplacian_rev(tt, xx, pi, ppi))
+        elif op == "div":
+            fwd = np.asarray(ops._div_fwd(t, x, sp, psp)).reshape(nidx, 1)
+            rev = point(lambda tt, xx: ops._div_rev(tt, xx, pi, ppi))
+        elif op == "veclap":
+            v = np.asarray(ops._vectorial_laplacian(t, x, sp, psp, u_vec_ndim=M))      # (M, b, .., b)
+            fwd = np.moveaxis(v, 0, -1).reshape(nidx, M)
+            rev = point(lambda tt, xx: ops._vectorial_laplacian(tt, xx, pi, ppi, u_vec_ndim=M))
+        elif op == "adv":
+            fwd = np.asarray(ops._u_dot_nabla_times_u_fwd(t, x, sp, psp)).reshape(nidx, 2)
+            rev = point(lambda tt, xx: ops._u_dot_nabla_times_u_rev(tt, xx, pi, ppi))
+        elif op == "masscons":
+            dl = MassConservation2DStatio(Tmax=1, nn_key="u")
+            pds = jinns.parameters.ParamsDict(nn_params={"u": sp.init_params()}, eq_params={})
+            pdp = jinns.parameters.ParamsDict(nn_params={"u": pi.init_params()}, eq_params={})
+            fwd = np.asarray(dl.evaluate(x, {"u": sp}, pds)).reshape(nidx, 1)
+            rev = np.asarray(jax.vmap(lambda p: jnp.ravel(dl.evaluate(p, {"u": pi}, pdp)))(jnp.asarray(grid_pts)))
+        else:
+            dl = (BurgerEquation if op == "burgers" else FisherKPP)(Tmax=float(rec["Tmax"]))
+            fwd = np.asarray(dl.evaluate(t, x, sp, psp)).reshape(nidx, 1)
+            rev = np.asarray(jax.vmap(lambda p: jnp.ravel(dl.evaluate(p[:1], p[1:], pi, ppi)))(jnp.asarray(grid_pts)))
+        out.update(fwd=[fracs(v) for v in fwd], rev=[fracs(v) for v in rev], exc="")
+    except Exception as ex:  # noqa
+        out.update(fwd=[], rev=[], exc=f"{type(ex).__name__}: {str(ex)[:200]}")
+    return out
+
+
+RUNNERS["fwdrev"] = run_fwdrev
